@@ -167,7 +167,7 @@ fn drop_op(plan: &Plan, k: usize) -> Plan {
 /// shrink the explicit op list and fault plan while the same oracle keeps firing
 pub fn minimise(p: &dyn Profile, reg: &Reg, plan: &Plan, oracle: &str) -> Plan {
     let mut cur = plan.clone();
-    let mut budget = 400;
+    let mut budget = 600;
     loop {
         let mut changed = false;
         // drop ops, last first
@@ -219,11 +219,118 @@ pub fn minimise(p: &dyn Profile, reg: &Reg, plan: &Plan, oracle: &str) -> Plan {
                 }
             }
         }
+        // ... and steps anywhere inside (scripts nested in the arguments of calls, base64 included)
+        for k in 0..cur.ops.len() {
+            loop {
+                let mut any = false;
+                for cand_op in deep_variants(&cur.ops[k]) {
+                    if budget == 0 {
+                        break;
+                    }
+                    let mut cand = cur.clone();
+                    cand.ops[k] = cand_op;
+                    budget -= 1;
+                    if reproduces(p, reg, &cand, oracle).is_some() {
+                        cur = cand;
+                        any = true;
+                        changed = true;
+                        break;
+                    }
+                }
+                if !any || budget == 0 {
+                    break;
+                }
+            }
+        }
         if !changed || budget == 0 {
             break;
         }
     }
     cur
+}
+
+/// every value obtained from `v` by removing exactly one step of one script, at any depth;
+/// scripts hide in `"script": [..]` members and inside base64 `args` of calls made by scripts
+fn json_variants(v: &Value) -> Vec<Value> {
+    let mut out = vec![];
+    match v {
+        Value::Object(o) => {
+            for (k, child) in o {
+                if k == "script" {
+                    if let Some(arr) = child.as_array() {
+                        for i in 0..arr.len() {
+                            let mut a = arr.clone();
+                            a.remove(i);
+                            let mut n = o.clone();
+                            n.insert(k.clone(), Value::Array(a));
+                            out.push(Value::Object(n));
+                        }
+                    }
+                }
+                if k == "args" || k == "payload" {
+                    if let Some(inner) = child.as_str().and_then(|s| sylvia::cw_std::Binary::from_base64(s).ok()).and_then(|b| serde_json::from_slice::<Value>(b.as_slice()).ok()) {
+                        for var in json_variants(&inner) {
+                            let mut n = o.clone();
+                            n.insert(k.clone(), Value::String(sylvia::cw_std::Binary::from(serde_json::to_vec(&var).unwrap()).to_base64()));
+                            out.push(Value::Object(n));
+                        }
+                        continue;
+                    }
+                }
+                for var in json_variants(child) {
+                    let mut n = o.clone();
+                    n.insert(k.clone(), var);
+                    out.push(Value::Object(n));
+                }
+            }
+        }
+        Value::Array(a) => {
+            for (i, child) in a.iter().enumerate() {
+                for var in json_variants(child) {
+                    let mut n = a.clone();
+                    n[i] = var;
+                    out.push(Value::Array(n));
+                }
+            }
+        }
+        _ => {}
+    }
+    out
+}
+
+fn deep_variants(op: &Op) -> Vec<Op> {
+    let rebuild = |doc: &crate::plan::Doc, intent: &Option<crate::plan::Intent>, flat: bool| -> Vec<(crate::plan::Doc, Option<crate::plan::Intent>)> {
+        let Ok(v) = serde_json::from_slice::<Value>(&doc.0) else { return vec![] };
+        json_variants(&v)
+            .into_iter()
+            .map(|nv| {
+                let it = intent.as_ref().map(|i| {
+                    let mut i = i.clone();
+                    i.args = if flat { nv.clone() } else { nv.as_object().and_then(|o| o.values().next().cloned()).unwrap_or(Value::Null) };
+                    i
+                });
+                (crate::plan::Doc(serde_json::to_vec(&nv).unwrap()), it)
+            })
+            .collect()
+    };
+    match op {
+        Op::Exec { target, sender, msg, funds, intent } => rebuild(msg, intent, false).into_iter().map(|(m, i)| Op::Exec { target: target.clone(), sender: sender.clone(), msg: m, funds: funds.clone(), intent: i }).collect(),
+        Op::Sudo { target, msg, intent } => rebuild(msg, intent, false).into_iter().map(|(m, i)| Op::Sudo { target: target.clone(), msg: m, intent: i }).collect(),
+        Op::Migrate { target, sender, code, msg, intent } => rebuild(msg, intent, true).into_iter().map(|(m, i)| Op::Migrate { target: target.clone(), sender: sender.clone(), code: *code, msg: m, intent: i }).collect(),
+        Op::Instantiate { code, sender, msg, label, admin, funds, salt, intent } => rebuild(msg, intent, true)
+            .into_iter()
+            .map(|(m, i)| Op::Instantiate { code: *code, sender: sender.clone(), msg: m, label: label.clone(), admin: admin.clone(), funds: funds.clone(), salt: salt.clone(), intent: i })
+            .collect(),
+        Op::Twin(t) => json_variants(&t.args)
+            .into_iter()
+            .map(|a| {
+                let mut n = t.clone();
+                n.args = a;
+                Op::Twin(n)
+            })
+            .collect(),
+        _ => vec![],
+    }
 }
 
 fn script_path(op: &Op) -> Option<(Value, Vec<String>)> {
